@@ -48,7 +48,8 @@ def _same(a, b, tol=1e-5):
         if not (isinstance(a[1], dict) and isinstance(b[1], dict)):
             return False
         x, y = obo.norm_comp(a[1]), obo.norm_comp(b[1])
-        return set(x) == set(y) and all(abs(x[k] - y[k]) < 1e-9 for k in x)
+        # counts are sums of decimal counts (0.1 + 0.1 + 0.1 - 0.3): a count within 1e-9 of zero is zero, whichever side has it
+        return all(abs(x.get(k, 0) - y.get(k, 0)) < 1e-9 for k in set(x) | set(y))
     return abs(a[1] - b[1]) <= tol
 
 
